@@ -205,7 +205,7 @@ func main() {
 		return runWKinds(seed, len(a) > 1 && a[1] == "1")
 	})
 	RegisterOp("sites", func(a []string) string {
-		ss, es, cs, err := listSites(ServiceDir())
+		ss, es, cs, ds, err := listSites(ServiceDir())
 		if err != nil {
 			return "error " + err.Error()
 		}
@@ -218,6 +218,9 @@ func main() {
 		}
 		for _, c := range cs {
 			l = append(l, c.key())
+		}
+		for _, d := range ds {
+			l = append(l, "decl "+d.Struct+" "+d.Field+" "+d.Type)
 		}
 		return strings.Join(l, " | ")
 	})
@@ -232,7 +235,7 @@ func c18(c *Ctx) {
 	c.Rule = "tie (i): the call graph, then one request per distinct (function, struct, field, read/write) selector site of package service on the statically placed structs, every static call / go / closure-sent-on-a-channel edge between its functions and every variable captured by a closure that runs in another goroutine (exhaustive over the current source); the model side derives the goroutine class(es) reaching each function from its root table and judges each site by (class, location, role); tie (ii): scenarios of 6..20 terminals (first messages, duplicate keys, heartbeats, locations, authentication, sub-packaged and unsupported messages, answers / missing answers / duplicate answers, FIN / close / RST) x 2..6 callers (7 command types, with and without timer, 1..100 ms timeouts) on one server built with -race and seeded delays before every channel operation of connection.go; every 8th round a scenario on a second server with the sub-package filter off (WithHasSubcontract(false), 4..12 terminals sending sub-packaged 0x0200/0x0801 transfers, an eventer that reads msg.Header in OnReadExecutionEvent), and every 8th round additionally the 22 (thorough: all 26) command / teardown scenario kinds of C12/C13 (lib/conc_writer.go GenW/RunW) run in parallel on the same server; non-trivial = a scenario in which commands were answered AND timed out or were cut by a teardown; distinct = distinct scenario seeds"
 	rng := c.Rng
 	// ---- tie (i): access sites
-	sites, edges, caps, err := listSites(ServiceDir())
+	sites, edges, caps, decls, err := listSites(ServiceDir())
 	if err != nil {
 		c.Case("sites-unavailable "+strings.Join(strings.Fields(err.Error()), "_"), "listed", true)
 	}
@@ -245,6 +248,9 @@ func c18(c *Ctx) {
 	for _, e := range edges {
 		items = append(items, "e:"+e.Kind+":"+e.Caller+":"+e.Callee)
 		c.Count("edge:" + e.Kind)
+	}
+	for _, d := range decls { // the fields as declared now: lets the model side recognise a renamed field by its type
+		items = append(items, "f:"+d.Struct+":"+d.Field+":"+strings.ReplaceAll(d.Type, ":", ";"))
 	}
 	c.Case("graph "+strings.Join(items, " "), "graph-loaded", true)
 	for _, e := range edges {
